@@ -482,6 +482,44 @@ impl MemExec {
         line
     }
 
+    /// Drop the cache itself (C13: entries still resident must be notified, as by `clear`).  Reported as a
+    /// `clear` operation whose notifications come from `Drop for RawCacheInner`.
+    pub fn drop_cache(&mut self) -> String {
+        crate::progress("op=clear dropped=1");
+        self.leaves.lock().clear();
+        self.piped.lock().clear();
+        self.handles.clear();
+        self.re.lock().cache = None;
+        let hook = DROP_HOOK.lock().take();
+        drop(hook);
+        let dummy: MCache = CacheBuilder::new(1)
+            .with_shards(1)
+            .with_eviction_config(self.cfg.eviction_config())
+            .with_hash_builder(FnBuildHasher(self.cfg.hmode))
+            .with_weighter(|_k: &u64, v: &Val| v.weight)
+            .with_filter(|_k: &u64, v: &Val| !v.phantom)
+            .build::<CacheProperties>();
+        let old = std::mem::replace(&mut self.cache, dummy);
+        drop(old);
+        let leaves: Vec<String> = self
+            .leaves
+            .lock()
+            .iter()
+            .map(|(e, rid, k, v)| format!("{}:{rid}:{k}:{v}", ev_name(*e)))
+            .collect();
+        let line = if self.cfg.listener {
+            // nothing is findable any more: every record still resident must have been notified just now
+            format!("op=clear dropped=1 ret=unit leaves={} piped=- usage=0 entries=0 has=-", show_list(leaves))
+        } else {
+            "op=clear dropped=1 ret=unit piped=- usage=0 entries=0 has=-".to_string()
+        };
+        crate::CUR_OP.lock().clear();
+        let mut t = crate::CUR_TRACE.lock();
+        t.push_str(&line);
+        t.push('\n');
+        line
+    }
+
     fn exec_inner(&mut self, op: &MemOp) -> String {
         crate::progress(&Self::op_text(op));
         self.leaves.lock().clear();
@@ -752,6 +790,16 @@ pub fn run_case(rng: &mut Rng, mode: &str, algo: &str, maxops: u64) -> String {
     let k = rng.below(ex.cfg.keys.max(1));
     out.push_str(&ex.exec(&MemOp::Ins { k, w: 1, low: false, phantom: false }));
     out.push('\n');
+    // finally the cache itself goes away: whatever is still resident must be notified (C13)
+    if ex.cfg.cb == CbMode::None {
+        let rid = ex.last_ins_rid;
+        if ex.handles.contains_key(&rid) {
+            out.push_str(&ex.exec(&MemOp::Drop { rid }));
+            out.push('\n');
+        }
+        out.push_str(&ex.drop_cache());
+        out.push('\n');
+    }
     out
 }
 
